@@ -263,13 +263,13 @@ class PoolResult:
 
 
 def run_pool(binp, build_name, prop, tier, seed, nworkers, rundir, dbits, extra_args=(), scale=None,
-             wall_limit=3600, max_restarts=25, wrapper=()):
+             wall_limit=3600, max_restarts=25, wrapper=(), dtable=None):
     """Runs nworkers worker processes to completion, restarting a worker after
     an abnormal death at the case after the one that killed it."""
     os.makedirs(rundir, exist_ok=True)
     res = PoolResult()
     t0 = time.time()
-    dtable = os.path.join(rundir, "distinct.tab")
+    dtable = dtable or os.path.join(rundir, "distinct.tab")
     if not os.path.exists(dtable):
         with open(dtable, "wb") as f:
             f.truncate((1 << dbits) * 8)
